@@ -39,6 +39,7 @@ type Ctx struct {
 	mode     string // "bv" or "int"
 	checkOvf bool   // int mode: generate overflow obligations
 	top      *ssa.Function
+	fnNonNil map[string]bool // function constants already assumed non-nil
 	fc       *FuncContract
 
 	decls    []string
